@@ -63,6 +63,7 @@ static err_t call_rng(fc_ctx* c)
 {
 	err_t code;
 	unsigned i;
+	int retry_bad = 0;
 	CUR = c;
 	es_mask = (unsigned)c->n[1];
 	/* memWipe's pattern depends on a hidden call counter and rngRekey/rngCreate feed wiped
@@ -72,6 +73,28 @@ static err_t call_rng(fc_ctx* c)
 	rngVerifESRead = es_hook;
 	fc_exit_capture(1);
 	code = rngCreate(c->n[2] ? extra_source : 0, c);
+	if (code != ERR_OK && !(c->n[1] == 0x01 && !c->n[2]))
+	{
+		/* a failed creation must leave the module as if it had not been tried: the caller tries
+		   again (the injected fault may be gone by then) and, if that succeeds, gets a working
+		   generator; if it fails again, the first error stands */
+		err_t first = code;
+		code = rngCreate(c->n[2] ? extra_source : 0, c);
+		if (code == ERR_OK)
+		{
+			if (!rngIsValid())
+				retry_bad = 1;
+			else
+			{
+				octet probe[16];
+				rngStepR2(probe, sizeof(probe), 0);
+				rngClose();
+				if (rngIsValid())
+					retry_bad = 1;
+			}
+		}
+		code = first;
+	}
 	if (code == ERR_OK)
 	{
 		for (i = 0; i < c->n[0]; ++i)
@@ -108,6 +131,8 @@ static err_t call_rng(fc_ctx* c)
 		if (c->n[1] == 0x01 && !c->n[2] && code == ERR_NOT_ENOUGH_ENTROPY)
 			code = ERR_OK;   /* one 32-octet source is documented as too little */
 	}
+	if (retry_bad)
+		c->damage = "rngCreate failed, the caller tried again, rngCreate returned ERR_OK - and there is no valid generator (or it survives its rngClose)";
 	/* process exit */
 	fc_run_exit();
 	fc_exit_capture(0);
